@@ -104,6 +104,15 @@ func (x *Exec) loopInvariants(st *State, fr *frame, li *loopInfo, mode string, a
 		env.lets = con.Lets
 	}
 	x.localEnv(st, fr, env)
+	if assert {
+		// iterator protocol invariant for iterators advanced in this loop
+		if x.loopAdvancesIter(li) {
+			for it, is := range st.iters {
+				x.oblig(&Obligation{Name: fmt.Sprintf("loop%d.%s.iterbound", li.ord, mode), Kind: "loop." + mode, Label: "iterbound",
+					Hyps: append([]string(nil), st.pc...), Goal: iterBound(is.Pos, it.N), Trace: strings.Join(st.trace, " "), Src: "iterator not exhausted at loop head"})
+			}
+		}
+	}
 	if ls == nil {
 		return // no invariant given: loop is cut with `true`
 	}
@@ -128,6 +137,14 @@ func (x *Exec) loopInvariants(st *State, fr *frame, li *loopInfo, mode string, a
 			st.assume(t)
 		}
 	}
+}
+
+func (x *Exec) loopAdvancesIter(li *loopInfo) bool {
+	eff := &effects{comps: map[string]bool{}, types: map[string]bool{}, allocs: map[*ssa.Alloc]bool{}, seen: map[*ssa.Function]bool{}}
+	for b := range li.body {
+		x.blockEffects(b, eff, 0)
+	}
+	return eff.iters
 }
 
 func (x *Exec) ghostSet() map[string]bool {
